@@ -210,3 +210,17 @@ let show_sobs_list (l : sobs list) : string =
   let b = Buffer.create 64 in
   List.iteri (fun i o -> if i > 0 then Buffer.add_char b ' '; show_sobs b o) l;
   Buffer.contents b
+
+let bop_of (s : sexp) : bop =
+  match head s with
+  | "next_by" -> BNextBy (apply_fn (fn_of (List.hd (args s))))
+  | "peek" -> BPeek
+  | _ -> BSub (sop_of s)
+
+let show_bobs_list (l : bobs list) : string =
+  let b = Buffer.create 64 in
+  List.iteri (fun i o -> if i > 0 then Buffer.add_char b ' ';
+     match o with
+     | BO x -> show_sobs b x
+     | BPeeked v -> Buffer.add_string b "(peek "; show_val b v; Buffer.add_char b ')') l;
+  Buffer.contents b
